@@ -65,6 +65,22 @@ def sqrtLoop : Nat → ED → Dec → Dec → Nat → Nat → ED × Dec
     let r3 := r2.1.step approx (fun c => mulOp c r2.2 decHalf)       -- approx = tmp * 0.5
     sqrtLoop fuel r3.1 f r3.2 p maxp
 
+/-- `sqrtSettle(nc, d, approx, x)`: `d` is the half-even rounding of `approx`; the result is the
+half-even rounding of the exact root when `approx` is within a unit of its last digit of it -/
+def sqrtSettle (nc : Ctx) (d approx x : Dec) : Dec × Cond :=
+  let dn := ctxRound { nc with mode := .down } approx
+  if !dn.2.inexact || dn.1.form != .finite || (ndigits dn.1.coeff != nc.prec && !dn.2.subnormal) then (d, {}) else
+  let t := dn.1
+  let mid : Dec := { t with coeff := t.coeff * 10 + 5, exp := t.exp - 1 }
+  let sq : Dec := { coeff := mid.coeff * mid.coeff, exp := 2 * mid.exp }
+  let cmp := sq.cmp x
+  let t' : Dec :=
+    if cmp < 0 || (cmp == 0 && t.coeff % 2 == 1) then
+      let c1 := t.coeff + 1
+      if ndigits c1 > nc.prec then { t with coeff := c1 / 10, exp := t.exp + 1 } else { t with coeff := c1 }
+    else t
+  if t'.cmp d == 0 then (d, {}) else ctxRound nc t'
+
 /-- `Context.Sqrt` -/
 def sqrtOp (c : Ctx) (x : Dec) : Out :=
   match rootSpecials c x 2 with
@@ -89,7 +105,16 @@ def sqrtOp (c : Ctx) (x : Dec) : Out :=
     if r.1.failed then failOut r.1.errOf else
     let d : Dec := { r.2 with exp := r.2.exp + Int.tdiv e 2 }
     let nc2 : Ctx := { c with prec := c.prec, mode := .halfEven }
-    let r := ctxRound nc2 d
+    -- the exponent ceiling stays at the package limit until the rounding is settled
+    let ncw : Ctx := { nc2 with emax := MaxExponent }
+    let r0 := ctxRound ncw d
+    -- the paper's settling step: compare the square of the midpoint above `d` truncated with `x`
+    let r1 := if r0.2.inexact && r0.1.form == .finite then
+               let st := sqrtSettle ncw r0.1 d x
+               (st.1, r0.2 ||| st.2)
+             else r0
+    let r2 := ctxRound nc2 r1.1
+    let r : Dec × Cond := (r2.1, r1.2 ||| r2.2)
     -- exactness re-check: the root is exact only if the square of the result is x
     let res :=
       if !r.2.inexact && r.1.form == .finite then
